@@ -495,8 +495,8 @@ fn gen_group_into(group: &str, d: usize, out: &mut Sink) {
         }
         "surface" => {
             let big = 1 << 20;
-            let rects: Vec<[i32; 4]> = vec![[0, 0, 2, 2], [0, 0, 3, 2], [-1, -1, 2, 1], [2, 1, 5, 4], [4, 4, 6, 6], [1, 1, 1, 1], [2, 2, 0, 0], [-big, -big, big, big], [big, 0, big + 2, 2], [0, 0, 0, 0], [-5, -5, -1, -1]];
-            let pts: Vec<[i32; 2]> = vec![[0, 0], [1, 1], [-1, -1], [-2, 1], [2, 1], [3, 2], [5, 5], [big, big], [-big, -big], [0, -big]];
+            let rects: Vec<[i32; 4]> = vec![[0, 0, 2, 2], [0, 0, 3, 2], [-1, -1, 2, 1], [2, 1, 5, 4], [4, 4, 6, 6], [1, 1, 1, 1], [2, 2, 0, 0], [-big, -big, big, big], [big, 0, big + 2, 2], [0, 0, 0, 0], [-5, -5, -1, -1], [0, 0, i32::MAX, i32::MAX], [i32::MIN, i32::MIN, i32::MAX, i32::MAX], [i32::MAX - 1, 0, i32::MAX, 2], [i32::MIN, 0, i32::MIN + 2, 2], [1, 1, i32::MIN, i32::MIN]];
+            let pts: Vec<[i32; 2]> = vec![[0, 0], [1, 1], [-1, -1], [-2, 1], [2, 1], [3, 2], [5, 5], [big, big], [-big, -big], [0, -big], [i32::MAX, 0], [1, i32::MAX], [i32::MIN, i32::MIN], [i32::MAX, i32::MAX], [-1, i32::MIN]];
             let ssz: Vec<(i32, i32)> = vec![(3, 2), (0, 0), (1, 1), (5, 4)];
             let mut kinds: Vec<SurfKind> = vec![SurfKind::Copy];
             for m in MODES.iter() {
